@@ -14,6 +14,7 @@
     notebook.c      yr_notebook_create / _alloc / _destroy
     scanner.c       yr_scanner_create (staged construction) / yr_scanner_destroy
 -/
+import YaraModel.Gen.OomSites
 namespace YaraModel.AllocM
 
 structure Heap where
@@ -283,5 +284,61 @@ def scannerCreate (externals : List Bool) : AllocM (Option Scanner) := fun h =>
       let s : Scanner := ⟨self, [tbl], r.1⟩
       if r.1.any Option.isNone then (none, (scannerDestroy s r.2).2)
       else addExternals fail externals s r.2
+
+/-! ## 7. Error propagation over a match list (scanner.c `_yr_scanner_scan_mem_block`) -/
+
+/-- The verification loop over the entries of a state's match list. `stopAtFirst = true` is
+    `GOTO_EXIT_ON_ERROR(yr_scan_verify_match(...))` (what `Gen.OomSites.verifyStopsAtFirstError` reads from the
+    source); `false` models `result = yr_scan_verify_match(...)` tested once after the loop. Each entry is the
+    outcome of one verification. -/
+def verifyLoop (stopAtFirst : Bool) : Res → List Res → Res
+  | acc, [] => acc
+  | acc, r :: rs =>
+    if stopAtFirst then (if r = .ok then verifyLoop stopAtFirst .ok rs else r)
+    else verifyLoop stopAtFirst r rs
+
+/-! ## 8. Position list of `yr_re_fast_exec` (re.c:2111-2400) -/
+
+/-- positions are malloc'd blocks; the scanner's pool keeps released ones (freed by `yr_scanner_destroy`).
+    `lastIdx` is the index in `list` of the node the `last` pointer designates (pointer identity: inserting a
+    node before it shifts the index, nothing else does). -/
+structure FastExec where
+  pool : List Nat        -- `context->re_fast_exec_position_pool`
+  list : List Nat        -- the position list, `first` = head
+  lastIdx : Nat
+deriving DecidableEq, Repr
+
+/-- `_yr_re_fast_exec_position_create`: reuse from the pool, else `yr_malloc` -/
+def positionCreate (st : FastExec) : AllocM (Option Nat × FastExec) := fun h =>
+  match st.pool with
+  | p :: ps => ((some p, { st with pool := ps }), h)
+  | [] =>
+    match alloc fail h with
+    | (none, h1) => ((none, st), h1)
+    | (some b, h1) => ((some b, st), h1)
+
+/-- `_yr_re_fast_exec_destroy_position_list(pool, first, last)`: splices `first … last` in front of the pool
+    (`last->next = pool->head`); the nodes that followed `last` are cut off and returned as orphans. -/
+def destroyList (st : FastExec) : FastExec × List Nat :=
+  ({ pool := st.list.take (st.lastIdx + 1) ++ st.pool, list := [], lastIdx := 0 }, st.list.drop (st.lastIdx + 1))
+
+/-- The insertion loop of RE_OPCODE_REPEAT_ANY_UNGREEDY: `k` new positions, each inserted right after the previous
+    one (the inputs increase with `j`), the first one after index `ip`. `tailInLoop` = the tail pointer is updated
+    inside the loop (`if (insertion_point == last) last = new_input;`) — what `Gen.OomSites.fastExecTailInLoop`
+    reads from the source; `false` = `last` is only walked to the end after the loop. A failed creation runs the
+    cleanup `destroyList`. Returns the outcome, the state and the orphaned nodes. -/
+def insertLoop (tailInLoop : Bool) : Nat → Nat → FastExec → AllocM (Res × FastExec × List Nat)
+  | 0, _, st => fun h =>
+    ((.ok, (if tailInLoop then st else { st with lastIdx := st.list.length - 1 }), []), h)
+  | k + 1, ip, st => fun h =>
+    match positionCreate fail st h with
+    | ((none, st1), h1) => let d := destroyList st1; ((.insufficientMemory, d.1, d.2), h1)
+    | ((some b, st1), h1) =>
+      let st2 : FastExec :=
+        { st1 with list := st1.list.take (ip + 1) ++ b :: st1.list.drop (ip + 1),
+                   lastIdx := if ip < st1.lastIdx then st1.lastIdx + 1
+                              else if tailInLoop then ip + 1 else st1.lastIdx }
+      insertLoop tailInLoop k (ip + 1) st2 h1
+
 
 end YaraModel.AllocM
